@@ -15,6 +15,7 @@ pub struct PanicInfo {
 
 thread_local! {
     static LAST: RefCell<Option<PanicInfo>> = RefCell::new(None);
+    static IN_CATCH: RefCell<bool> = RefCell::new(false);
 }
 static FUNCS: Mutex<Option<HashMap<(String, u32), String>>> = Mutex::new(None);
 
@@ -55,11 +56,18 @@ pub fn install() {
         } else {
             "?".to_string()
         };
-        let function = {
+        // locations inside the library identify their function (cache); locations inside dependencies
+        // (byteorder, generic-array, chrono …) are shared by many callers: walk the backtrace every time
+        let function = if file.starts_with("/repo/") || file.starts_with("src/") {
             let mut g = FUNCS.lock().unwrap();
             let m = g.get_or_insert_with(HashMap::new);
             m.entry((file.clone(), line)).or_insert_with(innermost_keepass_fn).clone()
+        } else {
+            innermost_keepass_fn()
         };
+        if !IN_CATCH.with(|c| *c.borrow()) {
+            eprintln!("harness panic (outside catch) at {}:{}: {}", file, line, message);
+        }
         LAST.with(|l| *l.borrow_mut() = Some(PanicInfo { file, line, message, function }));
     }));
 }
@@ -89,7 +97,10 @@ impl PanicInfo {
 
 pub fn catch<T>(f: impl FnOnce() -> T) -> Result<T, PanicInfo> {
     LAST.with(|l| *l.borrow_mut() = None);
-    match panic::catch_unwind(AssertUnwindSafe(f)) {
+    IN_CATCH.with(|c| *c.borrow_mut() = true);
+    let r = panic::catch_unwind(AssertUnwindSafe(f));
+    IN_CATCH.with(|c| *c.borrow_mut() = false);
+    match r {
         Ok(v) => Ok(v),
         Err(_) => Err(LAST.with(|l| l.borrow_mut().take()).unwrap_or(PanicInfo {
             file: "?".into(),
